@@ -41,12 +41,12 @@ Edge == {Seq0, AllOnes(4), [AllOnes(8) EXCEPT ![8] = 254], AllOnes(8)}
 StartSet == CASE Starts = "boundary" -> Boundary [] Starts = "edge" -> Edge [] OTHER -> {Seq0}
 
 \* the receiver starts where the sender starts, one before, or one after (when they exist)
-RecvStarts(b) == {b} \cup (IF b # Seq0 /\ Starts # "zero" THEN {[b EXCEPT ![8] = IF @ = 0 THEN 0 ELSE @ - 1]} ELSE {})
+RecvStarts(b) == {b} \cup (IF b # Seq0 /\ Starts # "zero" /\ Menu # "none" THEN {[b EXCEPT ![8] = IF @ = 0 THEN 0 ELSE @ - 1]} ELSE {})
 
 MC_Init ==
     \E b \in StartSet : \E br \in RecvStarts(b) : \E o \in (IF b = SeqMax THEN {FALSE, TRUE} ELSE {FALSE}) :
-        /\ ctx = ("s" :> [RawCtxOf(RawS) EXCEPT !.seq = b, !.ovf = o])
-                 @@ ("r" :> [RawCtxOf(RawR) EXCEPT !.seq = br, !.ovf = (o /\ br = SeqMax)])
+        /\ ctx = ("s" :> RawCtxAt(RawS, [seq |-> b, ovf |-> o]))
+                 @@ ("r" :> RawCtxAt(RawR, [seq |-> br, ovf |-> (o /\ br = SeqMax)]))
                  @@ ("x" :> RawCtxOf(RawX))
         /\ sent = ("s" :> <<>>) @@ ("x" :> <<>>)
         /\ rcvd = ("r" :> <<>>)
@@ -104,8 +104,7 @@ MC_ExportMenu == {<<<<>>, 32>>, <<Leaf("ectx", 7), 32>>, <<Leaf("ectx", 7), 0>>,
 
 NoSetups(x) == {}
 \* one line per generated transition: everything a one-transition implementation test needs
-EmitTr ==
-    Emit => PrintT(ToJson([last |-> last', sent |-> sent', raw |-> <<RawCtxRec(RawS), RawCtxRec(RawR), RawCtxRec(RawX)>>]))
+EmitTr == Emit => PrintT(ToJson(TransitionRecord))
 
 PrintHist == (RecordHist /\ Len(hist) = HistLen) => PrintT(ToJson(hist))
 =============================================================================
